@@ -91,9 +91,11 @@ def make_fixer(kind):
 
 
 _MSG = [
-    (re.compile(r"^Duplicate column '(.*)' at position (\d+) in table", re.S), lambda m: ["dup", m.group(1), int(m.group(2))]),
-    (re.compile(r"^Missing data in row (\d+) of table", re.S), lambda m: ["missing", int(m.group(1))]),
-    (re.compile(r"^Illegal value '(.*)' for unit '(\w+|-) ' in table", re.S),
+    (re.compile(r"^Duplicate column '(.*)' at position (\d+)", re.S), lambda m: ["dup", m.group(1), int(m.group(2))]),
+    (re.compile(r"^Missing data in row (\d+)", re.S), lambda m: ["missing", int(m.group(1))]),
+    # tolerant of re-wording after the parts that name the defect (value text and vtype); the blank the present
+    # wording has after the vtype is optional
+    (re.compile(r"^Illegal value '(.*)' for unit '(\w+|-) ?'", re.S),
      lambda m: ["illegal", m.group(2), m.group(1)]),
 ]
 
